@@ -294,10 +294,10 @@ def _task(arg):
     ws = wire_schema(cls)
     acc = Acc()
     k, own_k = cfg["k"], cfg["own_k"]
-    probe = values.Explorer(ws, k, mode, cfg.get("max_len", 16384))
+    probe = values.Explorer(ws, k, mode, cfg.get("max_len", 32767))
     if cfg["k3_slots"] and probe.slots <= cfg["k3_slots"]:
         k = 3
-    ex = values.Explorer(ws, k, mode, cfg.get("max_len", 16384), own_k=own_k, cap=cfg["cap"])
+    ex = values.Explorer(ws, k, mode, cfg.get("max_len", 32767), own_k=own_k, cap=cfg["cap"])
     seen = set()
     for cost, w, edits in ex:
         h = hash(values.freeze(w))
